@@ -37,6 +37,7 @@ type CopyParams struct {
 	MaxMeta     int64          `json:"max_meta,omitempty"`
 	MapRoot     string         `json:"map_root,omitempty"`  // "" | child | platform:<os/arch[/variant][@os.version]>
 	MapRoot2    string         `json:"map_root2,omitempty"` // C01: a second Copy of the same root into the same destination with this mapping
+	Chain       bool           `json:"chain,omitempty"`     // C03: the destination, filled by the (concurrent) first copy, is the source of a second one
 	Callbacks   bool           `json:"callbacks,omitempty"`
 	LatencyMs   map[string]int `json:"latency_ms,omitempty"`
 	Depth       int            `json:"depth,omitempty"`
@@ -257,10 +258,14 @@ func (p *copyProp) Gen(r *Rand, tier string, idx int) any {
 		if r.Chance(0.5) {
 			cp.Depth = r.Range(1, 4)
 		}
-		switch r.Intn(4) {
-		case 0:
+		if cp.Depth == 0 && cp.SrcKind != "remote" && cp.DstKind != "remote" && r.Chance(0.4) {
+			cp.Chain = true
+		}
+		switch x := r.Intn(4); {
+		case cp.Chain:
+		case x == 0:
 			cp.FilterAT = pick(r, []string{"sbom", "^application/vnd\\.example\\.", "sig$", "config", "test\\+type"})
-		case 1:
+		case x == 1:
 			cp.FilterAnnK = pick(r, annKeys)
 			cp.FilterAnnRe = pick(r, []string{"", "v1", "^beta", "alpha|v1", "."})
 		}
@@ -1022,7 +1027,24 @@ func (p *copyProp) runInBubble(rc *RunCtx, sc *Scenario, cp *CopyParams, g *Grap
 
 	switch p.id {
 	case "C01", "C03":
-		if v := p.judgeCopyOnce(rc, env, info, closure, before, account, outcomeCheck); v != nil || cp.MapRoot2 == "" || info.Outcome != string(simrt.OK) {
+		v := p.judgeCopyOnce(rc, env, info, closure, before, account, outcomeCheck)
+		if v == nil && cp.Chain && p.id == "C03" && info.Outcome == string(simrt.OK) && cp.API != "Copy" && cp.API != "CopyGraph" {
+			// what the first copy wrote with Concurrency goroutines is now read: the upward closure
+			// of the same node, taken in the destination, must come out complete once more
+			second, err := makeStore(rc, "memory", "dst2")
+			if err != nil {
+				return nil
+			}
+			cp2 := *cp
+			cp2.SrcKind, cp2.DstKind, cp2.Pre, cp2.Raced = cp.DstKind, "memory", nil, nil
+			if cp.DstRef != "" {
+				cp2.SrcRef, cp2.DstRef = cp.DstRef, ""
+			}
+			env2 := &copyEnv{g: g, cp: &cp2, src: env.dst, dst: second}
+			info.Probes["chained_second_copy_from_first_destination"]++
+			return p.judgeCopyOnce(rc, env2, info, nil, map[int]bool{}, account, outcomeCheck)
+		}
+		if v != nil || cp.MapRoot2 == "" || info.Outcome != string(simrt.OK) {
 			return v
 		}
 		// the same root once more, mapped differently, into the destination as the first call left it
